@@ -33,6 +33,17 @@ for sid in args:
             rc, out = sh(f"/verif/check {p} --tier quick", "/verif")
             first = [l for l in out.splitlines() if l.startswith(("VIOLATION", "OK ", "INCONCLUSIVE"))][:1]
             checks[p] = {"quick_exit": rc, "quick": first[0] if first else ""}
+            if rc != 1 and p == primary and meta.get("demo_dir") is not None and meta.get("demo_cmd"):
+                # does the change still break the property on this HEAD? (a later fix: commit
+                # may have neutralised it): the seed's own demonstration decides
+                sh(f"cp {d}/*_test.go /repo/{meta['demo_dir']}/", "/repo")
+                drc, dout = sh(meta["demo_cmd"], "/repo", timeout=900)
+                if drc == 0:
+                    meta["neutralised"] = "on /repo HEAD the seed's own demonstration passes with the change applied: a later fix: commit made the change harmless; check_results before that are in git history"
+                    checks[p]["demo_with_change"] = "passes (change neutralised on HEAD)"
+                else:
+                    meta.pop("neutralised", None)
+                    checks[p]["demo_with_change"] = "fails (change still breaks the property)"
             if rc != 1 and "--thorough-if-missed" in sys.argv:
                 rc, out = sh(f"/verif/check {p} --tier thorough", "/verif")
                 first = [l for l in out.splitlines() if l.startswith(("VIOLATION", "OK ", "INCONCLUSIVE"))][:1]
